@@ -29,54 +29,75 @@ Proof. unfold rs2, heqv2, cinv2. h2 x; h2 z; crush. Qed.
 Lemma rs2_final x z : rs2 x x z -> heqv2 z x.
 Proof. unfold rs2, heqv2. h2 x; h2 z; cbn; dmatch; crush. Qed.
 
+(* one change met during a rescan, for a contract the chain confirms *)
+Lemma rs1_ev h e x xP z : cinv1 x -> h_formed x = true -> rs1 x xP z -> final1 e (h_st x) ->
+  rs1 x (spec_ev1 h e xP) (spec_ev1 h e z).
+Proof.
+  intros Hc Efx Hr Hf. unfold rs1 in *. rewrite Efx in *. destruct Hr as (A & B & C & D).
+  revert Hc A B C D Hf Efx. unfold cinv1. h1 x; h1 z; h1 xP; destruct e; crush.
+Qed.
+Lemma rs2_ev i e x xP z : cinv2 x -> g_conf x <> None -> rs2 x xP z -> final2 e (g_st x) ->
+  rs2 x (spec_ev2 i e xP) (spec_ev2 i e z).
+Proof.
+  intros Hc Efx Hr Hf. unfold rs2 in *. destruct (g_conf x) as [ci|] eqn:E; [|congruence].
+  destruct Hr as (A & B & C & D).
+  revert Hc A B C D Hf E. unfold cinv2. h2 x; h2 z; h2 xP; destruct e; crush.
+Qed.
+
+Lemma rs1_evs h l x : forall xP z, cinv1 x -> h_formed x = true -> rs1 x xP z ->
+  (forall e, In e l -> final1 e (h_st x)) -> rs1 x (spec_evs1 h l xP) (spec_evs1 h l z).
+Proof.
+  induction l as [|e t IH]; intros xP z Hc Efx Hr Hf; [exact Hr|]. rewrite !spec_evs1_cons.
+  apply IH; auto; [|intros e' He'; apply Hf; right; exact He'].
+  apply rs1_ev; auto. apply Hf; left; reflexivity.
+Qed.
+Lemma rs2_evs i l x : forall xP z, cinv2 x -> g_conf x <> None -> rs2 x xP z ->
+  (forall e, In e l -> final2 e (g_st x)) -> rs2 x (spec_evs2 i l xP) (spec_evs2 i l z).
+Proof.
+  induction l as [|e t IH]; intros xP z Hc Efx Hr Hf; [exact Hr|]. rewrite !spec_evs2_cons.
+  apply IH; auto; [|intros e' He'; apply Hf; right; exact He'].
+  apply rs2_ev; auto. apply Hf; left; reflexivity.
+Qed.
+
+Lemma rs1_formed_z x xP z : h_formed x = true -> rs1 x xP z -> h_formed z = true.
+Proof. intros E H. unfold rs1 in H. rewrite E in H. tauto. Qed.
+Lemma rs2_formed_z x xP z : g_conf x <> None -> rs2 x xP z -> g_conf z <> None.
+Proof. intros E H. unfold rs2 in H. destruct (g_conf x); [|congruence]. destruct H as (_ & B & _). rewrite B. discriminate. Qed.
+
 Lemma rs1_step buffer ng id b x xP z :
   cinv1 x -> rs1 x xP z ->
-  (h_formed x = false -> ev1_of id b = None) ->
-  (forall e, ev1_of id b = Some e -> final1 e (h_st x)) ->
+  (h_formed x = false -> evl1_of id b = []) ->
+  (forall e, In e (evl1_of id b) -> final1 e (h_st x)) ->
   rs1 x (spec_block1 buffer ng id b xP) (spec_block1 buffer ng id b z).
 Proof.
-  intros Hc Hr Hn Hf. unfold rs1 in *. destruct (h_formed x) eqn:Efx.
-  - unfold spec_block1. destruct (ev1_of id b) as [e|].
-    + specialize (Hf e eq_refl). destruct Hr as (A & B & C & D).
-      assert (Hz : spec_rej1 ng (rej_arg buffer (bheight b)) (spec_ev1 (bheight b) e z) = spec_ev1 (bheight b) e z).
-      { apply rej1_formed. revert Hc A B Hf. unfold cinv1. h1 x; h1 z; destruct e; crush. }
-      rewrite Hz. clear Hz.
-      assert (Hcf : h_conf (spec_rej1 ng (rej_arg buffer (bheight b)) (spec_ev1 (bheight b) e xP))
-                    = h_conf (spec_ev1 (bheight b) e xP)).
-      { unfold spec_rej1. destruct (rej_arg _ _); [|reflexivity]. destruct (_ && _); reflexivity. }
-      rewrite Hcf. clear Hcf. revert Hc A B C D Hf Efx. unfold cinv1.
-      h1 x; h1 z; h1 xP; destruct e; crush.
-    + destruct Hr as (A & B & C & D). rewrite (rej1_formed _ _ z B).
-      assert (Hcf : h_conf (spec_rej1 ng (rej_arg buffer (bheight b)) xP) = h_conf xP).
-      { unfold spec_rej1. destruct (rej_arg _ _); [|reflexivity]. destruct (_ && _); reflexivity. }
-      rewrite Hcf. auto.
-  - unfold spec_block1. rewrite (Hn eq_refl).
+  intros Hc Hr Hn Hf. unfold spec_block1. destruct (h_formed x) eqn:Efx.
+  - pose proof (rs1_evs (bheight b) (evl1_of id b) x xP z Hc Efx Hr Hf) as Hs.
+    rewrite (rej1_formed _ _ (spec_evs1 (bheight b) (evl1_of id b) z)) by (eapply rs1_formed_z; eauto).
+    revert Hs. generalize (spec_evs1 (bheight b) (evl1_of id b) xP) (spec_evs1 (bheight b) (evl1_of id b) z).
+    intros xP' z'. unfold rs1. rewrite Efx.
+    assert (Hcf : h_conf (spec_rej1 ng (rej_arg buffer (bheight b)) xP') = h_conf xP').
+    { unfold spec_rej1. destruct (rej_arg _ _); [|reflexivity]. destruct (_ && _); reflexivity. }
+    rewrite Hcf. auto.
+  - rewrite (Hn eq_refl). cbn [spec_evs1 fold_left]. unfold rs1 in *. rewrite Efx in *.
     eapply heqv1_trans; [apply heqv1_rej; [exact Hc|exact Hr]|apply heqv1_rej_absorb; exact Hc].
 Qed.
 
 Lemma rs2_step buffer ng id b x xP z :
   cinv2 x -> rs2 x xP z ->
-  (g_conf x = None -> ev2_of id b = None) ->
-  (forall e, ev2_of id b = Some e -> final2 e (g_st x)) ->
+  (g_conf x = None -> evl2_of id b = []) ->
+  (forall e, In e (evl2_of id b) -> final2 e (g_st x)) ->
   rs2 x (spec_block2 buffer ng id b xP) (spec_block2 buffer ng id b z).
 Proof.
-  intros Hc Hr Hn Hf. unfold rs2 in *. destruct (g_conf x) as [ci|] eqn:Efx.
-  - unfold spec_block2. destruct (ev2_of id b) as [e|].
-    + specialize (Hf e eq_refl). destruct Hr as (A & B & C & D).
-      assert (Hz : spec_rej2 ng (rej_arg buffer (bheight b)) (spec_ev2 (bidx b) e z) = spec_ev2 (bidx b) e z).
-      { apply rej2_formed. revert Hc A B Hf Efx. unfold cinv2. h2 x; h2 z; destruct e; crush. }
-      rewrite Hz. clear Hz.
-      assert (Hcf : g_elem (spec_rej2 ng (rej_arg buffer (bheight b)) (spec_ev2 (bidx b) e xP))
-                    = g_elem (spec_ev2 (bidx b) e xP)).
-      { unfold spec_rej2. destruct (rej_arg _ _); [|reflexivity]. destruct (_ && _); reflexivity. }
-      rewrite Hcf. clear Hcf. revert Hc A B C D Hf Efx. unfold cinv2.
-      h2 x; h2 z; h2 xP; destruct e; crush.
-    + destruct Hr as (A & B & C & D).
-      rewrite (rej2_formed _ _ z) by (rewrite B; discriminate).
-      assert (Hcf : g_elem (spec_rej2 ng (rej_arg buffer (bheight b)) xP) = g_elem xP).
-      { unfold spec_rej2. destruct (rej_arg _ _); [|reflexivity]. destruct (_ && _); reflexivity. }
-      rewrite Hcf. auto.
-  - unfold spec_block2. rewrite (Hn eq_refl).
+  intros Hc Hr Hn Hf. unfold spec_block2. destruct (g_conf x) as [ci|] eqn:Efx.
+  - assert (Hne : g_conf x <> None) by (rewrite Efx; discriminate).
+    pose proof (rs2_evs (bidx b) (evl2_of id b) x xP z Hc Hne Hr Hf) as Hs.
+    rewrite (rej2_formed _ _ (spec_evs2 (bidx b) (evl2_of id b) z)) by (eapply rs2_formed_z; eauto).
+    revert Hs. generalize (spec_evs2 (bidx b) (evl2_of id b) xP) (spec_evs2 (bidx b) (evl2_of id b) z).
+    intros xP' z'. unfold rs2. rewrite Efx.
+    assert (Hcf : g_elem (spec_rej2 ng (rej_arg buffer (bheight b)) xP') = g_elem xP').
+    { unfold spec_rej2. destruct (rej_arg _ _); [|reflexivity]. destruct (_ && _); reflexivity. }
+    rewrite Hcf. auto.
+  - rewrite (Hn eq_refl). cbn [spec_evs2 fold_left]. unfold rs2 in *. rewrite Efx in *.
     eapply heqv2_trans; [apply heqv2_rej; [exact Hc|exact Hr]|apply heqv2_rej_absorb; exact Hc].
 Qed.
 
@@ -94,6 +115,25 @@ Lemma rescan_row2 i e c x xP :
 Proof.
   unfold cinv2, rs2. intros Hc Hr Hfx Hf. destruct (g_conf x) eqn:E; [|congruence]. revert Hc Hr Hf E.
   c2d c; h2 x; destruct e; cbn; intros; crush; try (eexists; reflexivity).
+Qed.
+
+Lemma rescan_rows1 h l x : forall c xP,
+  cinv1 x -> rs1 x xP (proj1 c) -> h_formed x = true -> (forall e, In e l -> final1 e (h_st x)) ->
+  rows_ok1 h l c.
+Proof.
+  induction l as [|e t IH]; intros c xP Hc Hr Hfx Hf; [exact I|].
+  destruct (rescan_row1 h e c x xP Hc Hr Hfx (Hf e (or_introl eq_refl))) as [r Er].
+  exists r. split; [exact Er|]. apply (IH _ (spec_ev1 h e xP)); auto; [|intros e' He'; apply Hf; right; exact He'].
+  destruct (row1_proj _ _ _ _ Er) as [A _]. rewrite A. apply rs1_ev; auto. apply Hf; left; reflexivity.
+Qed.
+Lemma rescan_rows2 i l x : forall c xP,
+  cinv2 x -> rs2 x xP (proj2 c) -> g_conf x <> None -> (forall e, In e l -> final2 e (g_st x)) ->
+  rows_ok2 i l c.
+Proof.
+  induction l as [|e t IH]; intros c xP Hc Hr Hfx Hf; [exact I|].
+  destruct (rescan_row2 i e c x xP Hc Hr Hfx (Hf e (or_introl eq_refl))) as [r Er].
+  exists r. split; [exact Er|]. apply (IH _ (spec_ev2 i e xP)); auto; [|intros e' He'; apply Hf; right; exact He'].
+  destruct (row2_proj _ _ _ _ Er) as [A _]. rewrite A. apply rs2_ev; auto. apply Hf; left; reflexivity.
 Qed.
 
 Lemma rescan_rej1 hm c x xP :
@@ -147,11 +187,11 @@ Section Rescan.
   Proof.
     intros HK (Hs' & N1 & N2 & R1 & R2). pose proof HJ as (Hs & Hck & _ & _).
     assert (Hsuf : chain_ok buffer (negof1 s) (negof2 s) (b :: P)) by (apply (chain_ok_suffix _ _ _ T); rewrite <- HK; exact Hck).
-    destruct Hsuf as [(Hn1 & Hn2 & V1 & V2) _].
+    destruct Hsuf as [(Hok & V1 & V2) _].
     assert (HbK : In b K) by (rewrite HK; apply in_or_app; right; left; reflexivity).
     (* facts about one row *)
     assert (F1 : forall id c, find1 id (cs1 s') = Some c ->
-               (forall e, ev1_of (id1 c) b = Some e -> exists r, row1_of (bheight b) e c = ROk r) /\
+               rows_ok1 (bheight b) (evl1_of (id1 c) b) c /\
                (forall hm, rej_arg buffer (bheight b) = Some hm -> q_rej1 hm (evrow1 (bheight b) b c) = true ->
                   exists r, rej1 (evrow1 (bheight b) b c) = ROk r) /\
                rs1 (spec1 buffer (neg1 c) id K) (spec1 buffer (neg1 c) id (b :: P))
@@ -160,31 +200,27 @@ Section Rescan.
       assert (Hng : negof1 s id = Some (neg1 c)) by (rewrite <- N1; apply negof1_some; eauto).
       pose proof (spec1_cinv _ _ _ _ _ _ Hck Hng) as Hc.
       specialize (R1 id c Ef). set (x := spec1 buffer (neg1 c) id K) in *.
-      assert (Hun : h_formed x = false -> ev1_of id b = None).
+      assert (Hun : h_formed x = false -> evl1_of id b = []).
       { intros Hf. eapply spec1_unformed_unmentioned; eauto. }
-      assert (Hfin : forall e, ev1_of id b = Some e -> final1 e (h_st x)).
+      assert (Hfin : forall e, In e (evl1_of id b) -> final1 e (h_st x)).
       { intros e E. eapply spec1_final; eauto. }
-      assert (P1 : forall e, ev1_of id b = Some e -> exists r, row1_of (bheight b) e c = ROk r).
-      { intros e E. destruct (h_formed x) eqn:Efx; [|rewrite (Hun eq_refl) in E; discriminate].
-        eapply rescan_row1; eauto. }
+      assert (P1 : rows_ok1 (bheight b) (evl1_of id b) c).
+      { destruct (h_formed x) eqn:Efx; [|rewrite (Hun eq_refl); exact I].
+        eapply rescan_rows1; eauto. }
       pose proof (rs1_step buffer (neg1 c) id b x _ _ Hc R1 Hun Hfin) as Hstep.
       split; [exact P1|]. split; [|rewrite spec1_cons; exact Hstep].
       intros hm Hrj Hq.
       destruct (evrow1_proj (bheight b) b c) as [A B]; [rewrite Hid; exact P1|]. rewrite Hid in A.
-      (* the row after its change is still related to x: use the step lemma without the rejection *)
       destruct (h_formed x) eqn:Efx.
-      - exfalso. unfold q_rej1 in Hq. cbn in A.
+      - exfalso. unfold q_rej1 in Hq.
         assert (Hfz : formed (evrow1 (bheight b) b c) = true).
         { change (h_formed (proj1 (evrow1 (bheight b) b c)) = true). rewrite A.
-          unfold rs1 in R1. rewrite Efx in R1. destruct R1 as (A1 & B1 & _).
-          destruct (ev1_of id b) as [e|] eqn:E; [|exact B1].
-          specialize (Hfin e eq_refl). revert Hc A1 B1 Hfin Efx. unfold cinv1.
-          generalize (proj1 c). intros z. h1 x; h1 z; destruct e; crush. }
+          eapply rs1_formed_z; [exact Efx|]. apply rs1_evs; eauto. }
         rewrite Hfz in Hq. rewrite Bool.andb_false_r in Hq. discriminate.
-      - rewrite (Hun eq_refl) in A. unfold evrow1 in *. rewrite Hid, (Hun eq_refl) in *.
+      - unfold evrow1 in *. rewrite Hid, (Hun eq_refl) in *. cbn [applyl1 fold_left] in *.
         eapply rescan_rej1; eauto. }
     assert (F2 : forall id c, find2 id (cs2 s') = Some c ->
-               (forall e, ev2_of (id2 c) b = Some e -> exists r, row2_of (bidx b) e c = ROk r) /\
+               rows_ok2 (bidx b) (evl2_of (id2 c) b) c /\
                (forall hm, rej_arg buffer (bheight b) = Some hm -> q_rej2 hm (evrow2 (bidx b) b c) = true ->
                   exists r, rej2 (evrow2 (bidx b) b c) = ROk r) /\
                rs2 (spec2 buffer (neg2 c) id K) (spec2 buffer (neg2 c) id (b :: P))
@@ -193,38 +229,36 @@ Section Rescan.
       assert (Hng : negof2 s id = Some (neg2 c)) by (rewrite <- N2; apply negof2_some; eauto).
       pose proof (spec2_cinv _ _ _ _ _ _ Hck Hng) as Hc.
       specialize (R2 id c Ef). set (x := spec2 buffer (neg2 c) id K) in *.
-      assert (Hun : g_conf x = None -> ev2_of id b = None).
+      assert (Hun : g_conf x = None -> evl2_of id b = []).
       { intros Hf. eapply spec2_unformed_unmentioned; eauto. }
-      assert (Hfin : forall e, ev2_of id b = Some e -> final2 e (g_st x)).
+      assert (Hfin : forall e, In e (evl2_of id b) -> final2 e (g_st x)).
       { intros e E. eapply spec2_final; eauto. }
-      assert (P1 : forall e, ev2_of id b = Some e -> exists r, row2_of (bidx b) e c = ROk r).
-      { intros e E. destruct (g_conf x) eqn:Efx; [|rewrite (Hun eq_refl) in E; discriminate].
-        eapply rescan_row2; eauto. rewrite Efx; discriminate. }
+      assert (P1 : rows_ok2 (bidx b) (evl2_of id b) c).
+      { destruct (g_conf x) eqn:Efx; [|rewrite (Hun eq_refl); exact I].
+        eapply rescan_rows2; eauto. rewrite Efx; discriminate. }
       pose proof (rs2_step buffer (neg2 c) id b x _ _ Hc R2 Hun Hfin) as Hstep.
       split; [exact P1|]. split; [|rewrite spec2_cons; exact Hstep].
       intros hm Hrj Hq.
       destruct (evrow2_proj (bidx b) b c) as [A B]; [rewrite Hid; exact P1|]. rewrite Hid in A.
       destruct (g_conf x) as [ci|] eqn:Efx.
       - exfalso. unfold q_rej2 in Hq.
+        assert (Hne : g_conf x <> None) by (rewrite Efx; discriminate).
         assert (Hfz : conf2 (evrow2 (bidx b) b c) <> None).
         { change (g_conf (proj2 (evrow2 (bidx b) b c)) <> None). rewrite A.
-          unfold rs2 in R2. rewrite Efx in R2. destruct R2 as (A1 & B1 & _).
-          destruct (ev2_of id b) as [e|] eqn:E; [|rewrite B1; discriminate].
-          specialize (Hfin e eq_refl). revert Hc A1 B1 Hfin Efx. unfold cinv2.
-          generalize (proj2 c). intros z. h2 x; h2 z; destruct e; crush. }
+          eapply rs2_formed_z; [exact Hne|]. apply rs2_evs; eauto. }
         destruct (conf2 (evrow2 (bidx b) b c)); [|congruence].
         rewrite Bool.andb_false_r in Hq. discriminate.
-      - rewrite (Hun eq_refl) in A. unfold evrow2 in *. rewrite Hid, (Hun eq_refl) in *.
+      - unfold evrow2 in *. rewrite Hid, (Hun eq_refl) in *. cbn [applyl2 fold_left] in *.
         eapply rescan_rej2; eauto. }
-    destruct (apply_block_rows buffer b s' Hs' Hn1 Hn2) as (s'' & E & Hs'' & Hf1 & Hf2).
-    { intros id e Ev. destruct (V1 id e Ev) as (ng & Hn & _). rewrite <- N1 in Hn.
-      apply negof1_some in Hn. destruct Hn as (c & Ef & _).
-      destruct (F1 id c Ef) as (P1 & _ & _). destruct (find1_in_ids _ _ _ Ef) as [_ Hid].
-      rewrite Hid in P1. destruct (P1 e Ev) as [r Hr]. eauto. }
-    { intros id e Ev. destruct (V2 id e Ev) as (ng & Hn & _). rewrite <- N2 in Hn.
-      apply negof2_some in Hn. destruct Hn as (c & Ef & _).
-      destruct (F2 id c Ef) as (P1 & _ & _). destruct (find2_in_ids _ _ _ Ef) as [_ Hid].
-      rewrite Hid in P1. destruct (P1 e Ev) as [r Hr]. eauto. }
+    assert (I1 : forall id c, find1 id (cs1 s') = Some c -> id1 c = id) by (intros id c Ef; apply (find1_in_ids _ _ _ Ef)).
+    assert (I2 : forall id c, find2 id (cs2 s') = Some c -> id2 c = id) by (intros id c Ef; apply (find2_in_ids _ _ _ Ef)).
+    destruct (apply_block_rows buffer b s' Hs') as (s'' & E & Hs'' & Hf1 & Hf2).
+    { intros id Ev. destruct (V1 id Ev) as (ng & Hn & _). rewrite <- N1 in Hn. unfold negof1 in Hn.
+      destruct (find1 id (cs1 s')); discriminate. }
+    { intros id Ev. destruct (V2 id Ev) as (ng & Hn & _). rewrite <- N2 in Hn. unfold negof2 in Hn.
+      destruct (find2 id (cs2 s')); discriminate. }
+    { intros id c Ef. destruct (F1 id c Ef) as (P1 & _ & _). rewrite (I1 id c Ef) in P1. exact P1. }
+    { intros id c Ef. destruct (F2 id c Ef) as (P1 & _ & _). rewrite (I2 id c Ef) in P1. exact P1. }
     { intros hm id c Hrj Ef. apply (F1 id c Ef). exact Hrj. }
     { intros hm id c Hrj Ef. apply (F2 id c Ef). exact Hrj. }
     exists s''. split; [exact E|]. split; [exact Hs''|]. split; [|split; [|split]].
